@@ -201,6 +201,33 @@ class C01(Prop):
 
         return ast_shrinks(case)
 
+    def extra(self, tier, shard, nshards, stt, seed):
+        """Small-scope enumeration: every chain of 2 constructor templates (all of them), and a seeded
+        1/40 (quick) or 1/4 (thorough) sample of the chains of 3."""
+        from vf.core import Stats
+        from vf.gen import N_CHAIN_STEPS, chain_ast
+
+        def run(idx, length):
+            node = chain_ast(idx, length)
+            stt.evaluations += 1
+            try:
+                self.check(node, stt)
+            except Decline as d:
+                stt.decline(d.bucket)
+            except Violation as v:
+                sig = v.bucket + "|chain|" + ast_signature(node)
+                if not any(x["bucket"] == sig for x in stt.violations) and len(stt.violations) < 6:
+                    stt.violations.append(dict(bucket=sig, message=v.message, case=node))
+
+        n2 = N_CHAIN_STEPS ** 2
+        for idx in range(shard, n2, nshards):
+            run(idx, 2)
+        n3 = N_CHAIN_STEPS ** 3
+        stride = 40 if tier == "quick" else 4
+        for idx in range(shard * stride + (seed % stride), n3, nshards * stride):
+            run(idx, 3)
+        stt.notes["max_chain2_enumerated"] = n2
+
     def check(self, case, stt):
         from vf.build import build
 
